@@ -147,7 +147,7 @@ class Poly:
     # -- inspection ---------------------------------------------------------------
     def key(self):
         if self._key is None:
-            self._key = intern_key(tuple(sorted(((m, c) for m, c in self.terms.items()), key=repr)))
+            self._key = intern_key(tuple(sorted(((m, c) for m, c in self.terms.items()), key=_mono_sort_key)))
         return self._key
 
     def __hash__(self):
@@ -458,6 +458,10 @@ def _ak(a):
         k = repr(a)
         _AK[a] = k
     return k
+
+
+def _mono_sort_key(t):
+    return tuple((_ak(a), e) for a, e in t[0])
 
 
 class SymbolicValue(Exception):
